@@ -3,10 +3,10 @@
   What is modelled and proved: the DISPATCH of `GraphtageFormatter.print` — `formatter.get_formatter`, a stateful
   search through the formatter tree driven by class MRO names — over tables regenerated from /repo on every run
   (every registered formatter with its `print_*` methods and sub-formatters; every TreeNode and edit class with its
-  MRO).  `dispatch_total`: for every registered root formatter and every concrete node class, the search returns a
-  handler or the class has its own `print` to fall back on, so rendering can never fail for want of a handler;
-  `edit_dispatch_total`: every concrete edit class is handled by a formatter method, or prints itself, or (its
-  `print` raising NotImplementedError) falls back to its node's handler.
+  MRO).  `dispatch_total`: for every registered root formatter (and every sub-formatter instance, and the Edited
+  variants) and every concrete node class, the search RETURNS A HANDLER (no fallback needed), so rendering can never
+  fail for want of a handler; `edit_dispatch_total`: every concrete edit class has a formatter method or its own
+  `print` (those whose `print` raises NotImplementedError fall back to their node's handler).
   The model of the search is validated EXHAUSTIVELY on every run (stream `dispatch`: every (formatter instance,
   class) pair, plain and Edited variants, against the real `get_formatter`).
   NOT modelled: the ~1 500 lines of handler bodies.  That part of C13 is decided on the real code only, by the
@@ -20,20 +20,29 @@ open GtModel.Dispatch
 
 def concrete (c : String × List String × Bool × Bool) : Bool := !c.2.2.2
 
-/-- every concrete node class can be printed under every registered root formatter -/
+/-- the MRO of the dynamically created `Edited<cls>` class of a node class -/
+def editedMro (c : String × List String × Bool × Bool) : List String := ("Edited" ++ c.1) :: "EditedTreeNode" :: c.2.1
+
+/-- every concrete node class is handled by a `print_*` METHOD OF SOME FORMATTER under every registered root
+    formatter — the fallback to the node's own `print` is never needed (no disjunct: a handler is found) -/
 theorem dispatch_total :
     ∀ ri ∈ List.range Gen.formatters.length, ∀ c ∈ Gen.nodeClasses, concrete c = true →
-      (getFormatter Gen.formatters (some (ri, [])) c.2.1).isSome = true ∨ c.2.2.1 = true := by
+      (getFormatter Gen.formatters (some (ri, [])) c.2.1).isSome = true := by
   decide +kernel
 
-/-- … and from every sub-formatter instance as the starting point (sub-formatters call `self.get_formatter`) -/
+/-- … also starting from every sub-formatter instance (sub-formatters call `self.get_formatter`), and for the
+    `Edited<cls>` variants that an annotated diff tree consists of -/
 theorem dispatch_total_from_subformatters :
     ∀ ri ∈ List.range Gen.formatters.length, ∀ p ∈ allPaths (Gen.formatters.getD ri (.mk "" [] [])),
       ∀ c ∈ Gen.nodeClasses, concrete c = true →
-      (getFormatter Gen.formatters (some (ri, p)) c.2.1).isSome = true ∨ c.2.2.1 = true := by
+      (getFormatter Gen.formatters (some (ri, p)) c.2.1).isSome = true ∧
+      (getFormatter Gen.formatters (some (ri, p)) (editedMro c)).isSome = true := by
   decide +kernel
 
-/-- every concrete edit class has a formatter method or its own `print` -/
+/-- edits: every concrete edit class either has a formatter method or defines its own `print`; edits whose `print`
+    raises NotImplementedError (KeyValuePairEdit, StringEdit) fall back to the handler of their from-node, which
+    exists by `dispatch_total`.  (The right disjunct is what the code relies on for most edit classes: this theorem
+    records that no edit class is left without either.) -/
 theorem edit_dispatch_total :
     ∀ ri ∈ List.range Gen.formatters.length, ∀ c ∈ Gen.editClasses, concrete c = true →
       (getFormatter Gen.formatters (some (ri, [])) c.2.1).isSome = true ∨ c.2.2.1 = true := by
@@ -44,6 +53,11 @@ theorem fuel_sufficient :
     ∀ ri ∈ List.range Gen.formatters.length, ∀ c ∈ Gen.nodeClasses ++ Gen.editClasses,
       (getF (Gen.formatters.getD ri (.mk "" [] [])) c.2.1 FUEL [] []).1
         = (getF (Gen.formatters.getD ri (.mk "" [] [])) c.2.1 (2 * FUEL) [] []).1 := by
+  decide +kernel
+
+/-- the statement is not vacuous and not satisfied by an arbitrary resolver: a formatter tree without the JSON
+    family leaves `XMLElement`-free classes unresolved -/
+example : (getFormatter [Fmt.mk "GraphtageFormatter" [] []] (some (0, [])) ["IntegerNode", "LeafNode", "TreeNode", "object"]).isSome = false := by
   decide +kernel
 
 -- non-vacuity
